@@ -131,4 +131,64 @@ theorem CredRel.pcred {e : Spec.Pending.Env} {s : Store} {P : List Tx} (h : Cred
       rw [ho] at ho'; cases ho'
       exact ⟨cr, by rw [← hid]; exact hg, by rw [hc'.1, ha]⟩
 
+/-- "the coins it creates are not counted as confirmed": no output of a spec-pending transaction is in the unspent
+    index (hence in no balance, no coin listing) -/
+theorem pending_not_unspent {rank : TxId → Nat} {E : HEnv} {w : HW} (H : HInv rank E w)
+    (hV : ChainValid E.own w.sp.chain) (t : Tx) (ht : t ∈ w.sp.pend) (wl : Wid) (j : Nat) :
+    AMap.get w.s.unspent (wl, t.id, j) = none := by
+  cases hg : AMap.get w.s.unspent (wl, t.id, j) with
+  | none => rfl
+  | some x =>
+    have := inv_unspent_onChain H.inv (show ChainValid (E.ctx w.node).own w.sp.chain from hV) wl t.id j (by rw [hg]; rfl)
+    rw [(H.cons t ht).1] at this; cases this
+
+/-- "when it confirms it becomes an ordinary ledger entry exactly once": after a successful connect of a block that
+    contains the spec-pending transaction `t`, `t` is in neither pending set, none of its records is left in the
+    pending-credit and unmined-deposit buckets, and each of its owned outputs has its (one: the key is the
+    outpoint with the block) mined credit under that block -/
+theorem confirm_once_hist {rank : TxId → Nat} {E : HEnv} {w : HW} (H : HInvC rank E w) (b : Block)
+    (D : HOK rank E w (.connect b)) (r : Store × List TxId)
+    (hf : filterBlock (E.ctx w.node) w.s (readyWallets w.s E.wallets) b = .ok r)
+    (t : Tx) (_ht : t ∈ w.sp.pend) (htb : t ∈ b.txs) :
+    t ∉ (stepH E w (.connect b)).sp.pend ∧
+    AMap.get (stepH E w (.connect b)).s.pending t.id = none ∧
+    (∀ j, AMap.get (stepH E w (.connect b)).s.pendCred (t.id, j) = none) ∧
+    (∀ wl bb j, AMap.get (stepH E w (.connect b)).s.pendGame (wl, bb, t.id, j) = none) ∧
+    (∀ j o, t.outs[j]? = some o → ownedOut E.env o = true →
+      (AMap.get (stepH E w (.connect b)).s.credits ⟨t.id, ⟨b.height, b.id⟩, j⟩).isSome = true) := by
+  have HC := hinvc_step H (.connect b) D
+  obtain ⟨⟨rest, hnode⟩, hvalid, _, _, _⟩ := D
+  have hvb : ChainValid E.own (w.sp.chain ++ [b]) := by
+    have : ChainValid E.own ((w.sp.chain ++ [b]) ++ rest) := by
+      rw [List.append_assoc, List.singleton_append, ← hnode]; exact hvalid
+    exact chainValid_prefix this
+  have hst : stepH E w (.connect b) =
+      { w with s := r.1, sp := Spec.Pending.step w.sp (.moved E.env (w.sp.chain ++ [b])) } := by
+    simp only [stepH, hf]
+  have hpend : (stepH E w (.connect b)).sp.pend = settle (w.sp.chain ++ [b]) [] w.sp.pend := by
+    rw [hst]; exact onChainMoved_connect E.env w.sp.chain b w.sp.pend
+  have hchain : (stepH E w (.connect b)).sp.chain = w.sp.chain ++ [b] := by rw [hst]; rfl
+  have hon : onChain (w.sp.chain ++ [b]) t.id = true :=
+    (onChain_iff _ _).2 ⟨b, List.mem_append_right _ List.mem_cons_self, t, htb, rfl⟩
+  have hnot : ∀ t', t' ∈ (stepH E w (.connect b)).sp.pend → t'.id ≠ t.id := by
+    intro t' ht' hid
+    rw [hpend] at ht'
+    have ha := alive0_of_mem_settle ht'
+    unfold alive0 at ha
+    rw [hid, hon] at ha
+    simp at ha
+  have hhas : hasId (stepH E w (.connect b)).sp.pend t.id = false := (hasId_false_iff _ _).2 hnot
+  refine ⟨fun hin => hnot t hin rfl, ?_, (HC.cred.residue t.id hhas).1, (HC.cred.residue t.id hhas).2, ?_⟩
+  · have := HC.inv.rel.hasId t.id
+    rw [hhas] at this
+    cases hg : AMap.get (stepH E w (.connect b)).s.pending t.id with
+    | none => rfl
+    | some x => rw [hg] at this; cases this
+  · intro j o ho hown
+    have hI := HC.inv.inv
+    rw [hchain] at hI
+    rw [ownedOut_eq] at hown
+    exact inv_cb_credits hI (show ChainValid (E.ctx (stepH E w (.connect b)).node).own (w.sp.chain ++ [b]) from hvb)
+      t htb j o ho hown
+
 end MW.Lemmas.PendHist.Cred
